@@ -4,6 +4,8 @@
 (* DISPATCH 1902 c19_census_holds *)
 (* DISPATCH 1903 c19_value_model *)
 (* DISPATCH 1904 c19_value_holds *)
+(* DISPATCH 1905 c19_mean_model *)
+(* DISPATCH 1906 c19_mean_holds *)
 From Coq Require Import List ZArith NArith QArith Bool.
 From Flocq Require Import IEEE754.Binary IEEE754.Bits.
 From MV Require Import Common.Sx SFloat.Defs SFloat.Str C19.UnitsGen C19.Model C19.Spec.
@@ -96,6 +98,7 @@ Fixpoint dec_value (fuel : nat) (x : sx) : value :=
     | 4%Z => WithUnit (dec_value f (sx_arg x 0)) (sx_tagid (sx_arg x 1))
     | 5%Z => Distribution (sx_tagid (sx_arg x 0)) (map (dec_value f) (sx_list (sx_arg x 1)))
     | 6%Z => MeanOf (sx_tagid (sx_arg x 0)) (f64_of_bits (sx_n (sx_arg x 1))) (sx_n (sx_arg x 2))
+    | 8%Z => MeanSeq (sx_tagid (sx_arg x 0)) (map (dec_value f) (sx_list (sx_arg x 1)))
     | _ => Opt (sx_tagid (sx_arg x 0)) (sx_option (dec_value f) (sx_arg x 1))
     end
   end.
@@ -146,4 +149,38 @@ Definition c19_value_holds (x : sx) : sx :=
       of_bool (Nat.eqb (List.length fs) (List.length rs)
                && forallb (fun p => nbytes_eqb (sx_bytes (sx_nth (fst p) 0)) (sx_bytes (sx_nth (snd p) 0))
                                     && value_holds (sx_nth (fst p) 1) (sx_nth (snd p) 1)) (combine fs rs))
+  end.
+
+(* ---------------------------------------------------------------------------- a Mean fed by record_value calls *)
+(* case (4 tree), tree = (8 u (v ..)) or (4 (8 u (v ..)) to): -> ((result ..) call), result = () for Ok or ("messages")
+   for Err, call = what the final Mean (bare, or wrapped in the target unit) writes *)
+Definition mean_seq_of (v : value) : option (tag * list value) :=
+  match v with
+  | MeanSeq u vs => Some (u, vs)
+  | WithUnit (MeanSeq u vs) _ => Some (u, vs)
+  | _ => None
+  end.
+Definition enc_result (msgs : list str) : sx :=
+  match msgs with [] => L [] | _ => L [of_string (str_join ", "%str msgs)] end.
+Definition c19_mean_model (x : sx) : sx :=
+  let v := dec_value 64 (sx_arg x 0) in
+  match mean_seq_of v with
+  | Some (u, vs) => L [L (map enc_result (mean_results u vs)); enc_vcall (write v)]
+  | None => L []
+  end.
+(* property predicate: exactly the acceptable values are accepted, and the written mean is that of the accepted
+   observations only (exact occurrences; total within the rounding allowance of the additions) *)
+Definition c19_mean_holds (x : sx) : sx :=
+  let case := sx_nth x 0 in
+  let impl := sx_nth x 1 in
+  let tree := sx_arg case 0 in
+  let v := dec_value 64 tree in
+  match mean_seq_of v with
+  | Some (u, vs) =>
+      let want := spec_mean_results u vs in
+      let got := map (fun r => match sx_list r with [] => true | _ => false end) (sx_list (sx_nth impl 0)) in
+      of_bool (negb (well_typed v) ||
+               (Nat.eqb (List.length want) (List.length got) && forallb (fun p => Bool.eqb (fst p) (snd p)) (combine want got)
+                && value_holds tree (sx_nth impl 1)))
+  | None => of_bool false
   end.
